@@ -130,6 +130,9 @@ def prepare_globals(record):
     np.random.seed((s >> 8) % (2**32))
     random.seed(s >> 16)
     debugging.reset_gv_debug(bool(record.get('debug', True)))
+    from gvsim import lib
+
+    lib.set_alias(record.get('alias_objects', False))
     if not record.get('keep_caches', False):
         clear_caches()
 
